@@ -18,7 +18,7 @@ import (
 // must agree for all 65 classes. No code is executed; unsupported shapes are undecided (reported).
 
 type blState struct {
-	k    int            // bit length of the tracked value
+	k    int // bit length of the tracked value
 	ints map[types.Object]int
 }
 
